@@ -82,7 +82,7 @@ func (formatter *typeFormatter) formatEnumDef(def ast.Object) string {
 
 	buffer.WriteString("const (\n")
 	for _, val := range enumType.Values {
-		name := tools.CleanupNames(formatObjectName(val.Name))
+		name := enumMemberIdentifier(val)
 		buffer.WriteString(fmt.Sprintf("\t%s %s = %#v\n", name, enumName, val.Value))
 	}
 	buffer.WriteString(")\n")
